@@ -72,6 +72,30 @@ class ShapeT:
             dims = tuple(dims[0])
         return _permute(self, dims)
 
+    def transpose(self, d0, d1):
+        shp = list(self.shape)
+        d0, d1 = d0 % len(shp), d1 % len(shp)
+        shp[d0], shp[d1] = shp[d1], shp[d0]
+        return ShapeT(shp)
+
+    def unsqueeze(self, d):
+        shp = list(self.shape)
+        d = d % (len(shp) + 1)
+        return ShapeT(shp[:d] + [1] + shp[d:])
+
+    def squeeze(self, d=None):
+        shp = list(self.shape)
+        if d is None:
+            return ShapeT([x for x in shp if isinstance(x, SI) or int(x) != 1])
+        d = d % len(shp)
+        return ShapeT(shp[:d] + shp[d + 1:]) if (not isinstance(shp[d], SI) and int(shp[d]) == 1) else ShapeT(shp)
+
+    def flatten(self, start_dim=0, end_dim=-1):
+        return _flatten(self, start_dim, end_dim)
+
+    def __getattr__(self, name):  # anything the stand-in does not model is an engine gap, never a silent AttributeError inside the model code
+        raise EngineGap(f"shape front end: tensor method .{name} is not modelled")
+
     def __getitem__(self, key):
         """basic indexing: ints, slices (also strided) and Ellipsis -- the shape rule only"""
         if not isinstance(key, tuple):
@@ -294,7 +318,7 @@ HANDLERS = {
     "leaky_relu": _same, "silu": _same, "elu": _same, "interpolate": _interpolate, "cat": _cat, "concat": _cat, "concatenate": _cat, "layer_norm": _layer_norm,
     "linear": _linear, "permute": lambda x, *d, **k: x.permute(*(d if d else (k["dims"],))), "add": _binary, "mul": _binary, "sub": _binary, "div": _binary,
     "__mul__": _binary, "__rmul__": _binary, "__add__": _binary, "__radd__": _binary, "multiply": _binary, "stochastic_depth": _stochastic_depth,
-    "flatten": _flatten, "adaptive_max_pool2d": _adaptive_pool, "adaptive_avg_pool2d": _adaptive_pool, "contiguous": _same, "clone": _same,
+    "flatten": _flatten, "transpose": lambda x, a, b: x.transpose(a, b), "unsqueeze": lambda x, d: x.unsqueeze(d), "squeeze": lambda x, d=None: x.squeeze(d), "adaptive_max_pool2d": _adaptive_pool, "adaptive_avg_pool2d": _adaptive_pool, "contiguous": _same, "clone": _same,
 }
 
 
